@@ -142,3 +142,14 @@ Definition match_of_dir (d : directive) (text : list N) (a b : Z) : cmatch :=
     (g_length (d_body d)) (g_conv (d_body d)) (g_c99conv (d_body d)) (g_c99len (d_body d)).
 Definition match_of_lit (t : list N) (a b : Z) : cmatch :=
   mkmatch a b t (Some t) None None None None None None None None None None None None.
+
+(* isinstance(x, (VariableWidth, VariablePrecision)) / isinstance(x, Conversion) on a value stored in the argument map *)
+Definition arg_is_star (a : arg) : bool := match a_kind a with KConv => false | _ => true end.
+Definition arg_is_conv (a : arg) : bool := match a_kind a with KConv => true | _ => false end.
+(* `x is y`, x a Conversion object or None, y a Conversion object: objects are identified by their index in _items *)
+Definition oconv_is (x : option (nat * bool)) (y : nat * bool) : bool :=
+  match x with Some c => Nat.eqb (fst c) (fst y) | None => false end.
+(* l[i] (None = IndexError), negative indices count from the end *)
+Definition py_index {A} (l : list A) (i : Z) : option A :=
+  if (i <? 0)%Z then (if (- i <=? zlen l)%Z then nth_error l (Z.to_nat (zlen l + i)) else None)
+  else nth_error l (Z.to_nat i).
